@@ -260,6 +260,9 @@ def merge_to_number(desired_chunks, max_number):
     distinct = set(desired_chunks)
     if len(distinct) == 1:
         w = distinct.pop()
+        if w == 0:
+            # an empty axis cut into zero-width chunks: merging them leaves zero-width chunks
+            return (0,) * max_number
         n = len(desired_chunks)
         total = n * w
 
